@@ -119,7 +119,67 @@ func (m *vfMon) OnReopenSucceeded() {
 
 var vfLifeStream = append(vfFrame(map[string]string{"_opid": "77"}, []byte("a")), vfFrame(map[string]string{"_opid": "78"}, []byte("b"))...)
 
+// vfPolicyGrid enumerates the stock monitor policy as the pure function it is: every configuration
+// of a small grid (InitialWait <= MaxWait, both from {0, 1ns, 1ms, 3ms, 1s}, 0-4 attempts) is driven
+// through the callback protocol of the runner with every reopen failing. Oracle: exactly
+// MaxReopenAttempts attempts, no negative wait, no wait above MaxWait, first wait InitialWait, every
+// later wait min(2 x previous, MaxWait).
+func vfPolicyGrid() (func(), func(*vsched.Exec) (string, *vsched.Violation)) {
+	var bad []string
+	n := 0
+	body := func() {
+		bad, n = nil, 0
+		ds := []time.Duration{0, 1, time.Millisecond, 3 * time.Millisecond, time.Second}
+		for _, iw := range ds {
+			for _, mw := range ds {
+				if iw > mw {
+					continue
+				}
+				for att := uint(0); att <= 4; att++ {
+					n++
+					m := &BaseFTransportMonitor{MaxReopenAttempts: att, InitialWait: iw, MaxWait: mw}
+					desc := fmt.Sprintf("MaxReopenAttempts=%d InitialWait=%s MaxWait=%s", att, iw, mw)
+					again, w := m.OnClosedUncleanly(errors.New("x"))
+					attempts := uint(0)
+					want := iw
+					for again && attempts < 20 {
+						if w < 0 || w > mw {
+							bad = append(bad, fmt.Sprintf("%s: wait %d is %s", desc, attempts, w))
+						} else if w != want {
+							bad = append(bad, fmt.Sprintf("%s: wait %d is %s, doubling from InitialWait clamped to MaxWait gives %s", desc, attempts, w, want))
+						}
+						attempts++
+						prev := w
+						again, w = m.OnReopenFailed(attempts, prev)
+						want = 2 * prev
+						if want > mw {
+							want = mw
+						}
+					}
+					if attempts != att {
+						bad = append(bad, fmt.Sprintf("%s: %d attempts allowed", desc, attempts))
+					}
+				}
+			}
+		}
+	}
+	check := func(e *vsched.Exec) (string, *vsched.Violation) {
+		out := fmt.Sprintf("policies=%d bad=%d", n, len(bad))
+		if e.Status == vsched.Panicked {
+			return out, &vsched.Violation{Key: "C15/panic/" + vfFirstLine(e.PanicS), Msg: e.PanicS}
+		}
+		if len(bad) > 0 {
+			return out, &vsched.Violation{Key: "C15/policy-waits-or-attempts", Msg: strings.Join(bad[:1], "; ") + fmt.Sprintf(" (%d of %d policies)", len(bad), n)}
+		}
+		return out, nil
+	}
+	return body, check
+}
+
 func vfLifeMake(scn string) (func(), func(*vsched.Exec) (string, *vsched.Violation)) {
+	if scn == "policy-grid" {
+		return vfPolicyGrid()
+	}
 	cfg := vfParseLife(scn)
 	var st *vfLifeState
 	body := func() {
@@ -509,6 +569,7 @@ func init() {
 		Props: []string{"C15"},
 		Scenarios: func(tier string) []string {
 			var out []string
+			out = append(out, "policy-grid")
 			full := len(vfLifeStream)
 			half := full / 2
 			kinds := []string{"eof", "err", "notopen"}
